@@ -106,6 +106,17 @@ def gen(repo):
         raise ValueError("from_string: unrecognised arm or default arm: %r" % rest.strip()[:120])
     if not arms:
         raise ValueError("from_string: no dispatch arms found")
+    # The patterns of the arms are string literals: an arm is taken iff its literal equals the scrutinee, and of two arms with
+    # the same literal only the first can ever be taken.  So the match is a lookup table keyed by the literal, and the order
+    # of arms with DIFFERENT literals is semantically irrelevant: drop unreachable duplicates (keeping the first) and emit the
+    # table sorted by key, so that re-ordering the arms in the source does not change the generated table.
+    # (`Props/C15.dispatch_keys_distinct` re-checks the distinctness of the keys of the emitted table.)
+    seen, uniq = set(), []
+    for a in arms:
+        if a[0] not in seen:
+            seen.add(a[0])
+            uniq.append(a)
+    arms = sorted(uniq, key=lambda a: a[0])
     # ---- Unicode tables of the regex engine
     rsdir, ver = _regex_syntax_dir(repo)
     dec = open(os.path.join(rsdir, "src", "unicode_tables", "perl_decimal.rs"), encoding="utf-8").read()
@@ -129,7 +140,8 @@ def gen(repo):
                     extras.add(tp)
     out = T.header("FromString", "src/gates/composite.rs (from_string dispatch arms; parse_gate_* patterns) and "
                    "regex-syntax %s unicode tables (tools/gen/c15_fromstring.py)" % ver)
-    out += ("/-- The arms of `match gate.name.to_lowercase().as_str()` in source order:\n"
+    out += ("/-- The arms of `match gate.name.to_lowercase().as_str()`, sorted by their string literal (the literals are distinct,\n"
+            "so the order of the arms in the source is irrelevant; an unreachable later arm with a repeated literal would be dropped):\n"
             "(key, gate struct constructed, `nr_args`, `nr_bits` of `assert_nr_args_bits`, indices `i` of the `gate.args[i]`\n"
             "passed to `::new` in order).  The default arm is `UnknownGate(gate.name)`. -/\n"
             "def fromStringTable : List (String × String × Nat × Nat × List Nat) := [\n")
